@@ -26,23 +26,30 @@ def histories(ctx, rng):
 
 def run(ctx):
     rng = random.Random(ctx.seed)
-    hs = histories(ctx, rng)
-    jobs = []
-    per = ctx.pick(5, 40)
-    for name in ROWWISE + sorted(getattr(__import__("harness.adapters_lot", fromlist=["ALL"]), "ROWWISE", [])) \
-            if _has_lot() else ROWWISE:
-        cls = _all()[name]
-        for ci in range(len(cls.configs)):
-            pick = hs[:2] + rng.sample(hs[2:], min(len(hs) - 2, per))
-            for h in pick:
-                jobs.append(dict(adapter=name, cfg=ci, seed=ctx.seed, history=h))
-    ctx.log("C12 histories to replay:", len(jobs))
-    protocol.run_jobs(ctx, jobs, "rowwise", ignore=("arguments_modified", "constructor_parameter_objects_modified",
-                                                    "temporary_files_left_behind", "same_seed_same_model", "fit_returns_self",
-                                                    "transform_changed_the_model"),
-                      nontrivial=lambda j: len(j["history"]) >= 3)
-    pools(ctx, jobs, rng)
-    far_mate(ctx)
+    want = lambda part: not ctx.only or part in ctx.only     # noqa
+    if want("rowwise") or want("pools"):
+        hs = histories(ctx, rng)
+        jobs = []
+        per = ctx.pick(5, 40)
+        for name in ROWWISE + sorted(getattr(__import__("harness.adapters_lot", fromlist=["ALL"]), "ROWWISE", [])) \
+                if _has_lot() else ROWWISE:
+            cls = _all()[name]
+            for ci in range(len(cls.configs)):
+                pick = hs[:2] + rng.sample(hs[2:], min(len(hs) - 2, per))
+                for h in pick:
+                    jobs.append(dict(adapter=name, cfg=ci, seed=ctx.seed, history=h))
+        ctx.log("C12 histories to replay:", len(jobs))
+        if want("rowwise"):
+            protocol.run_jobs(ctx, jobs, "rowwise", ignore=("arguments_modified", "constructor_parameter_objects_modified",
+                                                            "temporary_files_left_behind", "same_seed_same_model", "fit_returns_self",
+                                                            "transform_changed_the_model"),
+                              nontrivial=lambda j: len(j["history"]) >= 3)
+        if want("pools"):
+            pools(ctx, jobs, rng)
+    if want("far_batch_mate"):
+        far_mate(ctx)
+    if want("special"):
+        special_batches(ctx)
     ctx.exhaustive = False
     return ctx.finish(
         level="model_checking",
@@ -99,6 +106,33 @@ def far_mate(ctx):
             jobs.append(dict(adapter=name, cfg=ci, seed=ctx.seed, history=[call("fit", [1, 2, 3, 4, 5, 6]), call("transform", [1, 2]),
                                                                              call("transform", [1, 2, 9]), call("transform", [2, 1])]))
     protocol.run_jobs(ctx, jobs, "far_batch_mate", min_chunk=2,
+                      ignore=("arguments_modified", "constructor_parameter_objects_modified", "temporary_files_left_behind",
+                              "same_seed_same_model", "fit_returns_self", "transform_changed_the_model"))
+
+
+def special_batches(ctx):
+    """empty distributions among the items, and batches longer than the minimal internal chunk (256 rows) inside one block"""
+    from .. import adapters_lot
+
+    def call(op, b):
+        return {"op": op, "b": b, "knob": 0, "expect_ok": True}
+
+    def knob(k):
+        return {"op": "knob", "b": [], "knob": k, "expect_ok": True}
+    long1 = [1, 2, 3, 4] * 75                 # 300 rows: with memory_size="72k" one block of 288 rows, chunk 256
+    long2 = [5, 1, 6] * 86 + [2]              # 259 rows
+    jobs = []
+    for name, cls in sorted(adapters_lot.SPECIAL.items()):
+        for ci in range(len(cls.configs)):
+            hs = [[call("fit", [1, 2, 3, 4, 5, 6]), call("transform", [1, 2, 3, 4]), knob(1), call("transform", long1), knob(2),
+                   call("transform", [5, 1, 6, 2]), knob(1), call("transform", long2)]]
+            if "lil" not in name:
+                hs.append([call("fit", [1, 2, 3, 4, 5, 6]), call("transform", [7]), call("transform", [1, 7, 2, 7]), call("transform", [2, 1]),
+                           call("transform", [3, 4, 7, 7, 5]), knob(3), call("transform", [1, 7, 2, 7]), call("transform", [4, 7])])
+                hs.append([call("fit", [1, 2, 7, 3, 4, 5]), call("transform", [7, 1]), call("transform", [1, 7])])
+            for h in hs:
+                jobs.append(dict(adapter=name, cfg=ci, seed=ctx.seed, history=h))
+    protocol.run_jobs(ctx, jobs, "special_batches", min_chunk=1,
                       ignore=("arguments_modified", "constructor_parameter_objects_modified", "temporary_files_left_behind",
                               "same_seed_same_model", "fit_returns_self", "transform_changed_the_model"))
 
